@@ -21,6 +21,7 @@ import re
 from vlib import Infra
 
 REAL = {"superQueueLen": 128, "superQueueFutureSlots": 3, "spread": 120, "agentWindowMs": 1300, "timingShard": 1}
+HEAP = "6g"   # the largest instance has a few million states; a modest heap survives a shared machine
 INV = ["ExactlyOnce", "AllFlushed", "NotEarly", "RingOK", "Rounded", "Placement", "DropsJustified",
        "OutIncreasing", "SendBound", "ChanCap", "Monotone"]
 
@@ -90,8 +91,17 @@ def run(ctx):
     if selftest:
         runs = []
     for i, (cfg, name, consts) in enumerate(runs):
-        mc = ctx.tlc("AgentQueueMC", cfg, timeout=3000 if th else 900, coverage=(th and i == 1), name=name, constants=consts, keep_beh=False)
+        mc = ctx.tlc("AgentQueueMC", cfg, timeout=3000 if th else 900, name=name, constants=consts, keep_beh=False, heap=HEAP)
         ctx.require_model_ok(mc, "AgentQueue invariants (%s)" % name)
+    if th and not selftest:
+        cov = ctx.tlc("AgentQueueMC", "AgentQueue_mc2.cfg", timeout=1800, coverage=True, workers=4, heap=HEAP, keep_beh=False,
+                      name="action coverage (two shards, ring 8)", record=False)
+        ctx.require_model_ok(cov, "AgentQueue invariants (coverage run)")
+        dead = [a for a in cov.zero_cov if a in ("Tick", "Flush", "FlushAll", "Event", "Consume", "Stop", "FlushAllData")]
+        if dead:
+            raise Infra("actions never taken in the coverage run: %s" % dead)
+        ctx.ev.set("action_coverage", {k: v for k, v in cov.coverage.items()
+                                       if k in ("Tick", "Flush", "FlushAll", "Event", "Consume", "Stop", "FlushAllData")})
     ctx.ev.set("exhaustive", True)
     ctx.ev.set("invariants", INV)
     # 2. vacuity: wrong designs must violate the property
@@ -109,14 +119,14 @@ def run(ctx):
             with open("%s/specs/%s" % (ctx.root, cfg)) as f:
                 files = {"AgentQueue_variant.cfg": f.read().replace('Variant = "code"', 'Variant = "%s"' % variant)}
             cfg = "AgentQueue_variant.cfg"
-        r = ctx.tlc("AgentQueueMC", cfg, timeout=900, files=files, expect_violation=True, record=False, keep_beh=False,
+        r = ctx.tlc("AgentQueueMC", cfg, timeout=900, files=files, expect_violation=True, record=False, keep_beh=False, heap=HEAP,
                     name="wrong design: %s" % (variant or "resolution 4 in a ring of 8"))
         if r.violated not in expect:
             raise Infra("vacuity check failed: wrong design %s gives %s, expected %s" % (variant or cfg, r.violated, expect))
         broken[variant or "resolution_too_coarse_for_ring"] = r.violated
     ctx.ev.set("wrong_designs_violate", broken)
     # 3. behaviours with the real constants for the driver
-    beh = ctx.tlc("AgentQueueMC", "AgentQueue_beh_big.cfg" if th else "AgentQueue_beh.cfg", timeout=2400,
+    beh = ctx.tlc("AgentQueueMC", "AgentQueue_beh_big.cfg" if th else "AgentQueue_beh.cfg", timeout=2400, heap=HEAP,
                   name="behaviour export, real constants, boundary alphabet",
                   constants={"QLen": 128, "FutureSlots": 3, "Spread": 120, "NShards": 2, "T0": 86400057,
                              "shape": "start lag x tick x flush|event x event x flush|consume|stop+FlushAllData"})
@@ -138,7 +148,7 @@ def run(ctx):
     ctx.ev.set("boundary_behaviours_exported", len(full))
     replay(ctx, spec_cfg(beh), take, "tlc_behaviours_boundary")
     nsim = 250 if th else 24
-    sim = ctx.tlc("AgentQueueMC", "AgentQueue_sim.cfg", simulate=(nsim, 46), timeout=2400,
+    sim = ctx.tlc("AgentQueueMC", "AgentQueue_sim.cfg", simulate=(nsim, 46), timeout=2400, heap=HEAP,
                   name="simulated long behaviours, real constants",
                   constants={"QLen": 128, "FutureSlots": 3, "Spread": 120, "NShards": 2, "MaxOps": 45, "MaxEvents": 30})
     ctx.require_model_ok(sim, "simulation export")
